@@ -9,6 +9,7 @@ import (
 	"verif/harness/ast"
 	"verif/harness/gen"
 	"verif/harness/jv"
+	"verif/harness/model"
 	"verif/harness/run"
 )
 
@@ -66,7 +67,7 @@ func hasOddSpelling(v jv.Val) bool {
 // C20: == is a deep, type-strict equivalence; truthiness is uniform.
 func TestC20_Equality(t *testing.T) {
 	c := collector("C20", "equality")
-	rapid.Check(t, func(t *rapid.T) {
+	check(t, func(t *rapid.T) {
 		x := gen.Value(t, gen.DocCfg{MaxDepth: 3, MaxFan: 3}, 0)
 		if rapid.IntRange(0, 3).Draw(t, "falsy") == 0 {
 			x = gen.Pick(t, "falsyval", []jv.Val{jv.VNull(), jv.VBool(false), jv.VStr(""), jv.VArr(nil), jv.VObj(nil), jv.VInt(0), jv.VNumText("0.0"), jv.VNumText("-0"), jv.VStr("0"), jv.VStr(" "), jv.VArr([]jv.Val{jv.VNull()}), jv.VObj([]jv.Member{{K: "", V: jv.VNull()}})})
@@ -107,6 +108,27 @@ func TestC20_Equality(t *testing.T) {
 			return ast.F(name)
 		}
 		X, Y, Z := operand("x", x), operand("y", y), operand("z", z)
+		if x.K == jv.Arr && rapid.IntRange(0, 5).Draw(t, "window") == 0 {
+			// y (and sometimes z) is a window on the very array x denotes, so
+			// that both operands share memory inside the library
+			win := func(label string) (ast.Expr, jv.Val, bool) {
+				k := int64(rapid.IntRange(0, len(x.A)+1).Draw(t, label+"k"))
+				w := gen.Pick(t, label, []ast.Step{{Kind: ast.SListStar}, {Kind: ast.SSlice}, {Kind: ast.SSlice, Stop: ast.I64(k)}, {Kind: ast.SSlice, Start: ast.I64(k)}, {Kind: ast.SSlice, Stop: ast.I64(-1)}, {Kind: ast.SSlice, Start: ast.I64(k / 2), Stop: ast.I64(k)}})
+				r := model.EvalAt(&ast.Chain{Head: ast.Head{Kind: ast.HImplicit}, Steps: []ast.Step{w}}, x, x)
+				if !r.IsValue() {
+					return nil, jv.Val{}, false
+				}
+				return ast.Paren(X.(*ast.Chain).With(w)), r.V, true
+			}
+			if e, v, ok := win("ywin"); ok {
+				Y, y = e, v
+			}
+			if rapid.Bool().Draw(t, "zwindow") {
+				if e, v, ok := win("zwin"); ok {
+					Z, z = e, v
+				}
+			}
+		}
 		not := func(e ast.Expr) ast.Expr { return &ast.Unary{Op: "!", X: ast.Paren(e)} }
 		T, F := ast.RawS("T"), ast.RawS("F")
 		keys := []string{"refl", "xy", "yx", "ne", "yz", "xz", "cont", "nx", "and", "or", "filt", "nn", "cond"}
